@@ -27,7 +27,10 @@ RULE = ("random command trees (vp/gen_cmd.py: depth <= 2(3), every setting toggl
         "positionals), x lines of the class of C01_no_panic_single_clusters (no token is a short cluster of more than one character): "
         "a walk that selects every level by its own token, single-letter flags, values, boundary tokens, and generic lines with every "
         "multi-character cluster split; non-trivial = definition outside the class mirror and a level selected by `-S`; a panic is a "
-        "violation as on parse-flagsub-class.  Pseudo-stream panic-site-classes: no cases; carries the coverage class of every source "
+        "violation as on parse-flagsub-class.  Stream parse-no-resume (round 5): the same definitions x lines of the class of "
+        "C01_no_panic_no_resume: clusters of several flags, attached values, `=` forms are kept, a cluster is cut only behind a short "
+        "flag-subcommand letter of the tree, so such a letter always ends its cluster; non-trivial = outside the class mirror, a level "
+        "selected by a cluster ending in such a letter, and a multi-character cluster on the line.  Pseudo-stream panic-site-classes: no cases; carries the coverage class of every source "
         "panic site into the evidence.")
 TRUSTED = [
     "Coq 8.16.1 kernel (coqc); no native_compute; theorems C01_* are 'Closed under the global context'",
@@ -93,7 +96,9 @@ LEVEL_TEXT = ("Machine-checked theorems (Coq 8.16, closed under the global conte
               "10 reasoned), printed into the evidence; three formerly prose rows are theorems (external-subcommand guard, ids of "
               "missing_required_error); (D) the line side: for every valid definition a line without multi-character short clusters "
               "never panics (C01_no_panic_single_clusters) -- a panic needs a definition outside flag_sub_class AND such a cluster, and "
-              "is then that one assertion.")
+              "is then that one assertion; (F) sharpened: no panic on any line in which no short flag-subcommand letter of the definition is "
+              "followed by further characters of its cluster (C01_no_panic_no_resume: the resume logic is never engaged); the whole "
+              "property statement at the entry point in one theorem (C01_entry_point_summary).")
 LEVEL_NOTE = ("Trusted: Coq kernel, extraction, OCaml driver, Rust harness, generators. Recorded finding: nested short "
               "flag-subcommands whose intermediate flag consumes a number of indices other than one make the "
               "flag_subcmd_skip debug assertion fail (debug builds panic, release builds reject the line); round 2 found two "
@@ -462,6 +467,134 @@ def nontrivial_single(case, impl):
     return any(t in letters for t in argv[1:])
 
 
+# ---------------------------------------------------------------- stream parse-no-resume (round 5)
+def tree_letters(c):
+    """every short flag and short-flag alias of every subcommand of the tree (the set L of C01_no_panic_no_resume)"""
+    out = set()
+    for s_ in c["subs"]:
+        if s_.get("short_flag"):
+            out.add(s_["short_flag"])
+        for n_, _ in s_.get("short_flag_aliases", []):
+            out.add(n_)
+        out |= tree_letters(s_)
+    return out
+
+
+def cluster_chars(t):
+    """characters of the cluster `-...` as byte strings, up to the first byte sequence that is not UTF-8 (kept as one item)"""
+    r = t[1:]
+    out = []
+    while r:
+        for n in (1, 2, 3, 4):
+            try:
+                if len(r[:n].decode("utf-8")) == 1 and len(r[:n]) == n:
+                    out.append(r[:n])
+                    r = r[n:]
+                    break
+            except UnicodeDecodeError:
+                continue
+        else:
+            out.append(r)
+            break
+    return out
+
+
+def is_cluster(t):
+    return len(t) >= 2 and t[:1] == b"-" and t[:2] != b"--"
+
+
+def resumes(t, letters):
+    """python mirror of `tok_ok L t = false`: a character of L with something behind it in the cluster"""
+    if not is_cluster(t):
+        return False
+    ch = cluster_chars(t)
+    return any(x in letters for x in ch[:-1])
+
+
+def split_after_letters(t, letters):
+    """`-aSxy` -> `-aS -xy`: cut the cluster behind every letter of L"""
+    out, cur = [], b""
+    for x in cluster_chars(t):
+        cur += x
+        if x in letters:
+            out.append(b"-" + cur)
+            cur = b""
+    if cur:
+        out.append(b"-" + cur)
+    return out
+
+
+def no_resume_cases(rng, n):
+    """definitions with short flag-subcommands, mostly outside flag_sub_class, x lines of the class of C01_no_panic_no_resume:
+    multi-character clusters, attached values, `=` forms are all kept; a cluster is cut only behind a short flag-subcommand
+    letter of the tree (`-aSxy` -> `-aS -xy`), so such a letter always ends its cluster."""
+    prof = gen_cmd.Profile(flag_subs=0.8, hyphen=0.35, depth=3, settings=0.2, infer=0.2, require_equals=0.2, ignore_errors=0.15,
+                           invalid=0.0)
+    out = []
+    guard = 0
+    while len(out) < n and guard < 200 * n + 1000:
+        guard += 1
+        c = gen_cmd.gen_cmd(rng, prof)
+        if not uses_short_flag_sub(c):
+            continue
+        if in_flag_sub_class(c) and rng.random() < 0.7:
+            continue
+        letters = {x.encode() for x in tree_letters(c)}
+        lines = []
+        for _ in range(5):
+            toks = []
+            cc = c
+            while True:
+                shorts = [a["short"] for a in cc["args"] if a.get("short")]
+                for _ in range(rng.choice([0, 1, 1, 2])):
+                    r = rng.random()
+                    if r < 0.55 and shorts:
+                        k = rng.choice([1, 2, 2, 3])
+                        cl = "".join(rng.choice(shorts) for _ in range(k)).encode()
+                        if rng.random() < 0.3:
+                            cl += rng.choice([b"=v", b"val", b"1", b"=", b"\xff"])
+                        toks.append(b"-" + cl)
+                    elif r < 0.8:
+                        toks.append(rng.choice(gen_cmd.VALUES))
+                    else:
+                        toks.append(rng.choice(gen_cmd.BOUNDARY))
+                if not cc["subs"] or rng.random() < 0.2:
+                    break
+                withflag = [s_ for s_ in cc["subs"] if s_.get("short_flag")]
+                s_ = rng.choice(withflag) if withflag and rng.random() < 0.8 else rng.choice(cc["subs"])
+                if s_.get("short_flag") and rng.random() < 0.85:
+                    pre = "".join(rng.choice(shorts) for _ in range(rng.choice([0, 0, 1, 2]))) if shorts else ""
+                    toks.append(b"-" + pre.encode() + s_["short_flag"].encode())      # the letter ENDS its cluster
+                elif s_.get("long_flag") and rng.random() < 0.5:
+                    toks.append(b"--" + s_["long_flag"])
+                else:
+                    toks.append(s_["name"])
+                cc = s_
+            lines.append(toks)
+        for _ in range(3):
+            a = gen_cmd.gen_argv(rng, c, p_mutate=0.5, safe_p=0.4)
+            lines.append(a if "no_binary_name" in c["settings"] else a[1:])
+        for toks in lines:
+            flat = []
+            for t in toks:
+                flat += split_after_letters(t, letters) if resumes(t, letters) else [t]
+            assert not any(resumes(t, letters) for t in flat)
+            out.append(gen_cmd.case_sx(c, flat if "no_binary_name" in c["settings"] else [b"prog"] + flat))
+    return out[:n]
+
+
+def nontrivial_no_resume(case, impl):
+    """outside the mirror of flag_sub_class, a level selected by a short flag-subcommand letter, and a multi-character cluster"""
+    if not nontrivial_single(case, impl) and not nontrivial(case, impl):
+        return False
+    cmd, argv = decode_case(case)
+    if in_flag_sub_class(cmd):
+        return False
+    letters = {x.encode() for x in tree_letters(cmd)}
+    sel = any(is_cluster(t) and cluster_chars(t)[-1:] and cluster_chars(t)[-1] in letters for t in argv[1:])
+    return sel and any(multi_cluster(t) for t in argv[1:])
+
+
 def describe(cases, tag):
     feats = collections.Counter()
     lens = collections.Counter()
@@ -610,15 +743,18 @@ def streams(tier, rng):
     scc = single_cluster_cases(rng, 20000 if big else 2000)
     single = Stream("parse-single-clusters", scc, oracle=oracle, area="parse", project=project,
                     nontrivial=nontrivial_single, describe=describe(scc, "parse-single-clusters"))
+    nrc = no_resume_cases(rng, 20000 if big else 2000)
+    noresume = Stream("parse-no-resume", nrc, oracle=oracle, area="parse", project=project,
+                      nontrivial=nontrivial_no_resume, describe=describe(nrc, "parse-no-resume"))
     # round 5: the coverage class of every panic-shaped source site, into the evidence (no cases: the proof gate has
     # checked the lists; a site of the regenerated table without a class fails C01_sites_match / C01_sites_classified)
     sites = Stream("panic-site-classes", [], describe=publish_site_classes())
     return [mk("parse-random", rand), mk("parse-adversarial", adversarial), mk("parse-boundary", bound),
-            mk("parse-ignore-errors", ign), flagsub, single, errctx, sites]
+            mk("parse-ignore-errors", ign), flagsub, single, noresume, errctx, sites]
 
 
 def classify_known(stream, case, impl, failure):
-    if stream in ("parse-flagsub-class", "parse-single-clusters"):
+    if stream in ("parse-flagsub-class", "parse-single-clusters", "parse-no-resume"):
         return None       # definitions resp. lines of the classes of C01_no_panic_flag_subs / C01_no_panic_single_clusters:
                           # the recorded finding cannot occur there
     if impl and impl.startswith("PANIC") and KNOWN_SKIP_MSG in impl:
